@@ -62,12 +62,12 @@ func init() {
 
 // ---- C14 ----
 
-const c14Rule = "(every sixth case publishes an EMPTY index, every sixth an index whose every AddDocument failed after indexing part of the document) sequential part: an index is published, half of the queries are answered, then the builder goes through a seeded sequence of Reset / AddDocument (documents introducing new fields) / ConfigField / BuildIndex operations (always starting with Reset), then the other half is answered on the OLD index: all answers must be those of the one pure model index (Coq); through the hook the field table of the published index and the builder's are probed for aliasing; concurrent part (-race build): three goroutines query the published index while a fourth loops Reset -> AddDocument(new fields) -> BuildIndex on its builder; every answer is compared with the one taken before the builder activity and any race-detector report is a violation. Non-trivial = some query returns a non-empty proper subset; distinct = distinct input"
+const c14Rule = "(every sixth case publishes an EMPTY index, every sixth an index whose every AddDocument failed after indexing part of the document) sequential part: an index is published, half of the queries are answered, then the builder goes through a seeded sequence of Reset / AddDocument (documents introducing new fields) / ConfigField / BuildIndex operations (always starting with Reset), then the other half is answered on the OLD index: all answers must be those of the one pure model index (Coq); through the hook the field table of the published index and the builder's are probed for aliasing; concurrent part (-race build): three goroutines query the published index while a fourth loops Reset -> AddDocument(new fields) -> BuildIndex on its builder; every answer is compared with the one taken before the builder activity and any race-detector report is a violation. op 6 adds a new document carrying the very *Conjunction object the published generation ended with; Non-trivial = some query returns a non-empty proper subset; distinct = distinct input"
 
 type c14In struct {
 	C14  bool  `json:"c14"`
 	Case eCase `json:"case"`
-	Ops  []int `json:"ops"` // 0 Reset, 1 AddDocument(new field), 2 BuildIndex, 3 ConfigField(new), 4 AddDocument(known field only), 5 re-register the default-holder factory with other field parsers
+	Ops  []int `json:"ops"` // 0 Reset, 1 AddDocument(new field), 2 BuildIndex, 3 ConfigField(new), 4 AddDocument(known field only), 5 re-register the default-holder factory with other field parsers, 6 AddDocument(a new document carrying the SAME *Conjunction object as the last document of the published generation: documents generated from one targeting template)
 }
 
 func execC14(raw json.RawMessage) (res execResult, err error) {
@@ -81,9 +81,11 @@ func execC14(raw json.RawMessage) (res execResult, err error) {
 	obs := &e2eObs{}
 	b := newBuilder(c)
 	var docLits []string
+	var template *be.Conjunction // the last conjunction the published generation parsed
 	for i := range c.Docs {
 		var aerr error
-		p := safeCall(func() { aerr = b.AddDocument(c.Docs[i].build()) })
+		doc := c.Docs[i].build()
+		p := safeCall(func() { aerr = b.AddDocument(doc) })
 		out := "IAddOk"
 		if p {
 			out = "IAddPanic"
@@ -91,6 +93,9 @@ func execC14(raw json.RawMessage) (res execResult, err error) {
 			out = "IAddErr"
 		} else {
 			obs.NDocsOK++
+			if len(doc.Cons) > 0 {
+				template = doc.Cons[len(doc.Cons)-1]
+			}
 		}
 		docLits = append(docLits, fmt.Sprintf("(%s, %s)", c.Docs[i].coq(), out))
 	}
@@ -127,6 +132,12 @@ func execC14(raw json.RawMessage) (res execResult, err error) {
 			// with the published index's holders
 			undo := installParsers(map[int]string{0: "number", 1: "strhash", 4: "number"})
 			defer undo() // back to the stock factory when this case is over (registered last, so it runs before `restore`)
+		case 6:
+			if template != nil {
+				d := be.NewDocument(be.DocID(7000 + n))
+				d.AddConjunction(template)
+				safeCall(func() { b.AddDocument(d) })
+			}
 		case 2:
 			safeCall(func() { b.BuildIndex() })
 		case 3:
@@ -171,6 +182,20 @@ func init() {
 				}
 				add(c14In{C14: true, Case: c, Ops: []int{0, 4, 2, 0, 4, 1, 2}})
 			}
+			// the next generation starts with a document carrying the very conjunction object the published generation
+			// ended with (one template shared by generated documents), before and after a further Reset
+			for _, kind := range []string{"kgroups", "compact"} {
+				c := eCase{Kind: kind, Policy: "error"}
+				c.Docs = []eDoc{
+					{ID: 1, Cons: []eConj{{{F: 0, Inc: true, V: tvSlice("[]int", tvInt("int", 1), tvInt("int", 2))}}}},
+					{ID: 2, Cons: []eConj{{{F: 0, Inc: true, V: tvSlice("[]int", tvInt("int", 3))}}}},
+					{ID: 3, Cons: []eConj{{{F: 0, Inc: true, V: tvSlice("[]int", tvInt("int", 1))}, {F: 4, Inc: true, V: tvSlice("[]int", tvInt("int", 3))}}}},
+				}
+				for _, a := range [][2]int64{{1, 3}, {3, 3}, {2, 1}, {1, 1}, {1, 3}, {3, 0}, {1, 3}, {2, 3}} {
+					c.Queries = append(c.Queries, eQuery{A: []eAssign{{F: 0, V: tvInt("int", a[0])}, {F: 4, V: tvInt("int", a[1])}}})
+				}
+				add(c14In{C14: true, Case: c, Ops: []int{0, 6, 2, 0, 6, 4, 2}})
+			}
 			for i := 0; i < n; i++ {
 				c := mixedDocset(r, []string{"kgroups", "compact"}[(i+i/6)%2])
 				ops := []int{0}
@@ -203,7 +228,7 @@ func init() {
 					ops = []int{0, 4, 2}
 				}
 				for k := 1 + r.Intn(19); k > 0; k-- {
-					ops = append(ops, r.Intn(6))
+					ops = append(ops, r.Intn(7))
 				}
 				if i%6 == 3 { // factory change first, then a new generation through Reset / AddDocument / BuildIndex
 					ops = append([]int{0, 5, 0, 4, 1, 2}, ops...)
